@@ -193,8 +193,8 @@ static void do_app(const J &in) {
 namespace app2 {
 struct Inner { int inner_integer_parameter_long = 1; float inner_float_parameter_long = 0.5f; static const rtosc::Ports ports; };
 struct Big { int integer_parameter_with_a_long_name = 5; float float_parameter_with_a_rather_long_name = 0.5f; bool toggle_parameter_with_a_long_name = false; int option_parameter_with_long_names = 0;
-    char string_parameter_with_long_contents[64]; char integer_array_with_a_long_name[4]; Inner subtree_with_a_really_long_name; Inner enumerated_subtrees_with_long_names[3];
-    Big() { strcpy(string_parameter_with_long_contents, "initial"); memset(integer_array_with_a_long_name, 1, 4); }
+    char string_parameter_with_long_contents[64]; char huge_string_whose_reply_exceeds_the_reply_buffer[9000]; char integer_array_with_a_long_name[4]; Inner subtree_with_a_really_long_name; Inner enumerated_subtrees_with_long_names[3];
+    Big() { strcpy(string_parameter_with_long_contents, "initial"); strcpy(huge_string_whose_reply_exceeds_the_reply_buffer, "h"); memset(integer_array_with_a_long_name, 1, 4); }
     static const rtosc::Ports ports; };
 #define rObject Inner
 inline const rtosc::Ports Inner::ports = {
@@ -211,6 +211,7 @@ inline const rtosc::Ports Big::ports = {
     rToggle(toggle_parameter_with_a_long_name, rDefault(false), "toggle"),
     rOption(option_parameter_with_long_names, rOptions(the_first_option_with_a_long_name, the_second_option_with_a_long_name, third), rDefault(third), "option"),
     rString(string_parameter_with_long_contents, 64, rDefault("initial"), "string"),
+    rString(huge_string_whose_reply_exceeds_the_reply_buffer, 9000, rDefault("h"), "a string whose reply / broadcast does not fit RtData's 8192-byte buffer"),
     rArrayI(integer_array_with_a_long_name, 4, rLinear(0, 100), rDefault([1 1 1 1]), "array"),
     rRecur(subtree_with_a_really_long_name, "member sub-tree"),
     rRecurs(enumerated_subtrees_with_long_names, 3, "enumerated sub-trees"),
@@ -229,6 +230,11 @@ static void do_app2() {
     for (const char *a : I) { for (int v : {-50, 0, 1, 2, 7, 5000}) { go("sugar.set", rtosc_message(m, sizeof m, a, "i", v)); go("sugar.get", rtosc_message(m, sizeof m, a, "")); } go("sugar.set", rtosc_message(m, sizeof m, a, "f", 1.5)); }
     for (const char *a : F) { for (double v : {-100.0, 0.25, 3.5, 100.0}) { go("sugar.set", rtosc_message(m, sizeof m, a, "f", v)); go("sugar.get", rtosc_message(m, sizeof m, a, "")); } go("sugar.set", rtosc_message(m, sizeof m, a, "i", 1)); }
     for (const char *a : S) for (const char *v : SV) { go("sugar.set", rtosc_message(m, sizeof m, a, "s", v)); go("sugar.get", rtosc_message(m, sizeof m, a, "")); go("sugar.set", rtosc_message(m, sizeof m, a, "S", v)); }
+    { static char hm[16384]; static char hv[8700]; memset(hv, 'z', sizeof hv - 1); hv[sizeof hv - 1] = 0;      // replies and broadcasts larger than the 8192-byte formatting buffer
+      auto goh = [&](const char *op, size_t n) { if (!n) return; Quiet d; d.obj = &app; memset(loc, 0, sizeof loc); d.loc = loc; d.loc_size = sizeof loc;
+          rt(op, [&] { app2::Big::ports.dispatch(hm, d, true); return d.matches > 0 ? "match" : "nomatch"; }); };
+      goh("sugar.set", rtosc_message(hm, sizeof hm, "/huge_string_whose_reply_exceeds_the_reply_buffer", "s", hv));
+      goh("sugar.get", rtosc_message(hm, sizeof hm, "/huge_string_whose_reply_exceeds_the_reply_buffer", "")); }
     for (const char *t : {"T", "F"}) { go("sugar.set", rtosc_message(m, sizeof m, "/toggle_parameter_with_a_long_name", t)); go("sugar.get", rtosc_message(m, sizeof m, "/toggle_parameter_with_a_long_name", "")); }
 }
 
